@@ -17,6 +17,7 @@ type GenCfg struct {
 	W        Window
 	Lookback int64
 	Hostile  bool // NaN/Inf values and hostile parameters
+	Extreme  bool // literals of overflowing magnitude / denormals (C19's structural runs only: their sums depend on summation order)
 }
 
 func (g *GenCfg) on(f string) bool { return !g.Avoid[f] }
@@ -241,6 +242,10 @@ func GenDataset(r *Rng, w Window, lookback int64, maxSeries int, hostile, withHi
 type qgen struct {
 	r *Rng
 	g *GenCfg
+	// noAt > 0 while generating an aggregation parameter: the pinned Prometheus version does not
+	// wrap parameters into step-invariant nodes, so an @ modifier there is not pinned by the
+	// reference engine itself (its result then depends on how much data the querier exposes).
+	noAt int
 }
 
 func durStr(msv int64) string {
@@ -308,7 +313,7 @@ func (q *qgen) modifiers() string {
 		}
 		s += " offset " + durStr(off)
 	}
-	if g.on("at") && r.P(0.10) {
+	if g.on("at") && q.noAt == 0 && r.P(0.10) {
 		switch x := r.Intn(5); {
 		case x == 0 && g.on("at-start-end"):
 			s += " @ start()"
@@ -436,6 +441,8 @@ func (q *qgen) instantFn(d int) string {
 
 func (q *qgen) phi(d int) string {
 	if q.g.on("param:scalar") && q.r.P(0.2) {
+		q.noAt++
+		defer func() { q.noAt-- }()
 		return q.scalar(d)
 	}
 	if q.g.Hostile && q.r.P(0.3) {
@@ -500,6 +507,8 @@ func (q *qgen) agg(d int) string {
 func (q *qgen) kparam(d int) string {
 	r, g := q.r, q.g
 	if g.on("param:scalar") && r.P(0.2) {
+		q.noAt++
+		defer func() { q.noAt-- }()
 		return q.scalar(d)
 	}
 	if g.Hostile && g.on("param:hostile") && r.P(0.35) {
@@ -622,7 +631,10 @@ func (q *qgen) vector(d int) string {
 
 func (q *qgen) literal() string {
 	if q.g.Hostile && q.r.P(0.15) {
-		return Pick(q.r, []string{"NaN", "Inf", "-Inf", "1e308", "5e-324", "-0"})
+		if q.g.Extreme {
+			return Pick(q.r, []string{"NaN", "Inf", "-Inf", "1e308", "5e-324", "-0", "-1e308"})
+		}
+		return Pick(q.r, []string{"NaN", "Inf", "-Inf", "-0", "1e6"})
 	}
 	return Pick(q.r, []string{"0", "1", "2", "3", "0.5", "10", "-1", "100", "1.5"})
 }
